@@ -227,6 +227,11 @@ def o_identity(case, lines):
         exp = [(1, i) for i in range(n)] + [(2, i) for i in range(n)]
         if seq != exp:
             return "sorted nodes are not grouped by document in document order: %s" % (seq[:8],)
+    oi = sec(lines, "OI")
+    if oi:
+        exp = sum(max(0, n - k - 1) for k in range(3))
+        if int(oi[0][1]) != exp:
+            return "only %s of %d nodes reached through descendants().nth(k) round-trip through get_node(n.id())" % (oi[0][1], exp)
     oh = sec(lines, "OH")
     if oh:
         if int(oh[0][1]) != 2 * n or oh[0][2] != "1":
@@ -500,6 +505,22 @@ def o_positions(case, lines):
             nchars = len(ls[row - 1].decode("utf-8", "replace"))
             if not (1 <= col <= nchars + 1):
                 return "error column %d outside 1..%d" % (col, nchars + 1)
+            # the character / byte carried in the error is the one written at the reported position
+            line = ls[row - 1].decode("utf-8", "replace") + ("\n" if row < len(ls) else "")
+            at = line[col - 1] if col - 1 < len(line) else None
+            if f[1] == "NonXmlChar" and at is not None and ord(at) != int(f[4]):
+                return "NonXmlChar(U+%04X) reported at %d:%d, where the input has U+%04X" % (int(f[4]), row, col, ord(at))
+            if f[1] == "InvalidChar" and at is not None and ord(at) < 128 and ord(at) != int(f[5]):
+                return "InvalidChar(actual %d) reported at %d:%d, where the input has %d" % (int(f[5]), row, col, ord(at))
+            if f[1] == "InvalidChar2" and at is not None and ord(at) < 128 and ord(at) != int(f[5]):
+                return "InvalidChar2(actual %d) reported at %d:%d, where the input has %d" % (int(f[5]), row, col, ord(at))
+    return None
+
+
+def nodes_kind(lines, i):
+    for r in sec(lines, "N"):
+        if int(r[1]) == i:
+            return r[2]
     return None
 
 
@@ -562,6 +583,17 @@ def o_borrowed(case, lines):
                 if data[int(r[7]):int(r[7]) + int(r[8])] != v:
                     return "attribute %s: borrowed value differs from the input at its address" % (key,)
     m = case.meta or {}
+    # the fast-path rule on the piece generators: a run written as one literal stretch without
+    # '&' and CR (no CDATA, no reference) is stored borrowed, whatever else the document contains
+    src = m.get("src")
+    if src is not None and m.get("gen") == "pieces-text" and src != "" and not any(x in src for x in ("&", "\r", "<![CDATA[")):
+        kinds = [r[3] for r in sec(lines, "B") if r[2] == "text" and r[1].isdigit() and nodes_kind(lines, int(r[1])) == "T"]
+        if kinds and kinds[0] != "B":
+            return "a text run without '&' and CR (%r) is stored owned, the fast-path rule says borrowed" % src
+    if src is not None and m.get("gen") == "pieces-attr" and not any(x in src for x in ("&", "\r", "\n", "\t")):
+        kinds = [r[6] for r in sec(lines, "B") if r[2] == "attr"]
+        if kinds and kinds[0] != "B":
+            return "an attribute value without '&', TAB, LF, CR (%r) is stored owned, the fast-path rule says borrowed" % src
     if m.get("expect_borrowed_text") is not None:
         kinds = [r[3] for r in sec(lines, "B") if r[2] == "text" and r[1] == str(m.get("text_node", 2))]
         if kinds and (kinds[0] == "B") != m["expect_borrowed_text"]:
